@@ -32,7 +32,7 @@ def run_one(path: str):
 def main():
     paths = []
     for d in sys.argv[1:]:
-        paths += sorted(glob.glob(os.path.join(d, '*.diff')))
+        paths += sorted(glob.glob(os.path.join(os.path.abspath(d), '*.diff')))
     res = {}
     with concurrent.futures.ThreadPoolExecutor(8) as ex:
         for path, verdict, bad, err in ex.map(run_one, paths):
